@@ -84,6 +84,8 @@ def main():
              'duplicates) x catalog shapes (0/1/2 distinct msgstr[] counts, untranslated, obsolete, fuzzy) x languages of the registry or none x template flag; '
              'non-trivial = distinct header value list',
         trusted=['Lean 4.33 kernel', 'axioms: propext, Classical.choice, Quot.sound only',
+                 'parse_plural_forms is tied by translation + proof: tools/translate/gettextpf2lean.py (over tools/translate/pytr; the match object of the pinned header regex is the model\'s scanner) is trusted, '
+                 'the regenerated reader is PROVED equal to parsePluralForms / parsePluralFormsStrict (Props/C07Tie.lean) and runs against CPython in the parse-plural-forms*-generated streams',
                  'Spec.PluralFormsRe: list-of-successes semantics of the regex fragment (literal, set, greedy single-character repeat, x?, group) as the meaning of re.search',
                  'pluralforms2lean translator (re._parser tree, registry as loaded by lib.ling, codomain_limit / format_range max from the AST of check_plurals)',
                  'py2lean translator for the three expression analyses; hand-written model of check_plurals / parse_plural_forms tied by the check-plurals stream',
